@@ -163,6 +163,8 @@ impl Parser for Markdown {
 
         let mut traversed_bytes = 0;
         let mut traversed_chars = 0;
+        // End (in bytes) of the last text event that was turned into tokens.
+        let mut tokenized_until = 0;
 
         let mut stack = Vec::new();
 
@@ -220,6 +222,13 @@ impl Parser for Markdown {
                     });
                 }
                 pulldown_cmark::Event::Text(text) => {
+                    // For some malformed links (e.g. `[[target|]]text`) pulldown-cmark emits
+                    // the text that follows a second time. It has been tokenized already.
+                    if range.start < tokenized_until {
+                        continue;
+                    }
+                    tokenized_until = range.end;
+
                     let chunk_len = text.chars().count();
 
                     if let Some(tag) = stack.last() {
